@@ -224,4 +224,83 @@ var (
 	codeStoreLoop    = []byte{0x60, 0x01, 0x60, 0x00, 0x55, 0x5b, 0x60, 0x05, 0x56}             // SSTORE(0,1); loop forever -> out of gas
 	codeInvalid      = []byte{0xfe}                                                             // INVALID
 	codeStoreSuccess = []byte{0x60, 0x01, 0x60, 0x00, 0x55, 0x00}                               // SSTORE(0,1); STOP
+	codeBadJump      = []byte{0x60, 0x01, 0x60, 0x00, 0x55, 0x60, 0x00, 0x56}                   // SSTORE(0,1); JUMP to a non-JUMPDEST
+	codeUnderflow    = []byte{0x60, 0x01, 0x60, 0x00, 0x55, 0x01}                               // SSTORE(0,1); ADD on an empty stack
 )
+
+// ---------------------------------------------------------------------------------------------------------
+// revert payload shapes: one per class of what abi.UnpackRevert can make of the return data of a reverting frame
+
+func word(n uint64) []byte {
+	var w [32]byte
+	for i := 0; i < 8; i++ {
+		w[31-i] = byte(n >> (8 * i))
+	}
+	return w[:]
+}
+
+func errorString(reason string) []byte {
+	bz := append([]byte{0x08, 0xc3, 0x79, 0xa0}, word(32)...) // Error(string)
+	bz = append(bz, word(uint64(len(reason)))...)
+	padded := make([]byte, (len(reason)+31)/32*32)
+	copy(padded, reason)
+	return append(bz, padded...)
+}
+
+type revertShape struct {
+	name    string
+	payload []byte
+}
+
+var revertShapes = []revertShape{
+	{"nodata", nil},                                  // REVERT(0,0)
+	{"error-empty", errorString("")},                 // revert("") / require(c, "")
+	{"error-text", errorString("x")},                 // revert("x")
+	{"error-long", errorString("a reason longer than thirty-two bytes, two words")},
+	{"error-revtext", errorString("execution reverted")},
+	{"panic", append([]byte{0x4e, 0x48, 0x7b, 0x71}, word(1)...)},       // Panic(uint256): assert
+	{"custom", append([]byte{0xde, 0xad, 0xbe, 0xef}, word(7)...)},      // a custom error
+	{"malformed", append(append([]byte{0x08, 0xc3, 0x79, 0xa0}, word(32)...), word(1<<40)...)}, // Error(string) selector, length beyond the data
+}
+
+func shapeByName(n string) revertShape {
+	for _, s := range revertShapes {
+		if s.name == n {
+			return s
+		}
+	}
+	panic("unknown revert shape " + n)
+}
+
+// codeRevertWith: [SSTORE(0,1);] copy the payload into memory word by word; REVERT(0, len)
+func codeRevertWith(payload []byte, store bool) []byte {
+	var c []byte
+	if store {
+		c = append(c, 0x60, 0x01, 0x60, 0x00, 0x55)
+	}
+	for off := 0; off < len(payload); off += 32 {
+		var w [32]byte
+		copy(w[:], payload[off:])
+		c = append(c, 0x7f)
+		c = append(c, w[:]...)
+		c = append(c, 0x61, byte(off>>8), byte(off), 0x52)
+	}
+	return append(c, 0x61, byte(len(payload)>>8), byte(len(payload)), 0x60, 0x00, 0xfd)
+}
+
+// vmKind classifies the text of MsgEthereumTxResponse.VmError
+func vmKind(t string) string {
+	switch {
+	case t == "":
+		return "ok"
+	case t == "execution reverted":
+		return "revert"
+	case t == "out of gas":
+		return "oog"
+	case t == "insufficient balance for transfer":
+		return "insufficient"
+	case strings.HasPrefix(t, "invalid opcode: "):
+		return "invalid"
+	}
+	return "other"
+}
